@@ -701,7 +701,14 @@ class Dag:
     # -- entry points
     def operand(self, o, bb, pos):
         if o['k'] == 'const':
-            return const_of(o)
+            c = const_of(o)
+            if c[0] == 'const' and isinstance(c[1], str) and 'promoted[' in c[1]:
+                pb = self.b.facts.bodies.get(c[1])
+                if pb is not None and pb is not self.b:
+                    ex = pb.exits()
+                    if ex:
+                        return pb.dag().local(0, ex[0], len(pb.blocks[ex[0]]['stmts']) + 1)
+            return c
         if o['k'] in ('copy', 'move'):
             return self.place(o['pl'], bb, pos)
         return ('other',)
